@@ -216,6 +216,33 @@ func init() {
 		},
 	})
 	register(&PropSpec{
+		ID:       "C19",
+		NeedsGen: true,
+		Explanation: "Decided for module `codegen`: R-INDEX - every constant index into os.Args beyond the schema file is dominated by a length test (no panic without the ignore " +
+			"argument); R-EXPLICIT - the only explicit panic is the environment abort check(err); R-MAPORDER - what is written to the output inside loops over the YAML-decoded maps " +
+			"is ordered by a total-order sort of the keys first (byte-identical output on re-runs); R-FLOW - the ignore argument is compared with the object's map key itself, " +
+			"parseType is exactly integer->int64 / float->float64 / identity, and a field's type is the referenced ID for refs and the type ID otherwise. " +
+			"NOT decided: gofmt validity of the output for arbitrary identifier spellings; YAML null properties.",
+		Assumptions: []string{"a schema file argument is given (the property's premise)"},
+		Rules: []func(*Ctx){
+			func(c *Ctx) { c.ruleArgsIndex("R-INDEX") },
+			func(c *Ctx) {
+				all := map[*ssa.Function]bool{}
+				for _, f := range c.Gen.Funcs {
+					all[f] = true
+				}
+				c.ruleMapOrder("R-MAPORDER", c.Gen, all)
+				c.R.Floor("R-MAPORDER", 2)
+				var roots []*ssa.Function
+				if m := c.Gen.FuncByKey["main.main"]; m != nil {
+					roots = append(roots, m)
+				}
+				c.ruleExplicit("R-EXPLICIT", c.Gen, roots, nil, false)
+			},
+			func(c *Ctx) { c.ruleCodegenFlow("R-FLOW") },
+		},
+	})
+	register(&PropSpec{
 		ID: "C12",
 		Explanation: "Decided: R-EFFECT - every write instruction (store, map update, delete, append into a non-fresh slice, mutating library call) in the functions reachable from " +
 			"the pure API is classified by an interprocedural origin analysis; only writes to memory allocated during the call, and idempotent lazy cache fills (written only " +
